@@ -5,6 +5,7 @@ import Pike.Driver.Loc
 import Pike.Driver.Codec
 import Pike.Driver.Resp
 import Pike.Driver.Sched
+import Pike.Driver.Codecs
 open Pike.Driver
 
 structure St where
@@ -19,6 +20,7 @@ def judgeLine (st : St) (line : String) : St × String :=
   | "race" :: "bad" :: _ => (st, "ok race-bad 1 TRIP wrong_body_for_key")
   | "sched" :: rest => let (d, v) := judgeSched st.sched rest; ({ st with sched := d }, v)
   | "resp" :: rest => let (d, v) := judgeResp st.resp rest; ({ st with resp := d }, v)
+  | "codecs" :: rest => (st, judgeCodecs rest)
   | "codec" :: rest => (st, judgeCodec rest)
   | "loc" :: rest => (st, judgeLoc rest)
   | "key" :: rest => (st, judgeKey rest)
